@@ -23,6 +23,18 @@ static const char *fens[] = {
     "1rqbkrbn/1ppppp1p/1n6/p1N3p1/8/2P4P/PP1PPPP1/1RQBKRBN w FBfb - 0 9",
 };
 static const int NF = sizeof(fens) / sizeof(fens[0]);
+// positions for the SHARED objects: incl. en-passant captures available (one and two capturers, with a check to
+// resolve), a position in check, Chess960 castling
+static const char *shared_fens[] = {
+    "rnbqkbnr/pppppppp/8/8/8/8/PPPPPPPP/RNBQKBNR w KQkq - 0 1",
+    "r3k2r/p1ppqpb1/bn2pnp1/3PN3/1p2P3/2N2Q1p/PPPBBPPP/R3K2R w KQkq - 0 1",
+    "rnbqkbnr/ppp1pppp/8/8/3pP3/8/PPPP1PPP/RNBQKBNR b KQkq e3 0 3",
+    "4k3/8/8/2PpP3/8/8/8/4K3 w - d6 0 2",
+    "8/8/8/8/k2Pp2Q/8/8/3K4 b - d3 0 1",
+    "rnbq1k1r/pp1Pbppp/2p5/8/2B5/8/PPP1NnPP/RNBQK2R w KQ - 1 8",
+    "4k3/8/8/8/8/8/4r3/R3K2R w KQ - 0 1",
+};
+static const int NSF = sizeof(shared_fens) / sizeof(shared_fens[0]);
 
 static std::uint64_t mix(std::uint64_t h, std::uint64_t v) {
     h ^= v + 0x9e3779b97f4a7c15ULL + (h << 6) + (h >> 2);
@@ -49,6 +61,18 @@ static std::uint64_t own_work(int k, std::uint64_t seed) {
     }
     h = mix(h, pos.perft(2));
     while (!pos.history().empty()) pos.undomove();
+    if (k % 8 == 3) {
+        // a very long game on an own object (well beyond 256 and 1024 stacked moves), then unwound
+        Position g(fens[0]);
+        static const char *cyc[] = {"g1f3", "g8f6", "f3g1", "f6g8"};
+        const int plies = 300 + (k % 5) * 260;
+        for (int i = 0; i < plies; ++i) g.makemove(std::string(cyc[i % 4]));
+        h = mix(h, g.hash());
+        h = mix(h, g.halfmoves());
+        h = mix(h, g.threefold());
+        while (!g.history().empty()) g.undomove();
+        h = mix(h, g.hash());
+    }
     h = mix(h, pos.hash() == copy.hash());
     copy.set_fen(fens[(k + 3) % NF], (k + 3) % NF >= 5);
     h = mix(h, copy.perft(2));
@@ -75,31 +99,35 @@ int main(int argc, char **argv) {
     const int nthreads = argc > 1 ? std::atoi(argv[1]) : 8;
     const int iters = argc > 2 ? std::atoi(argv[2]) : 50;
     const std::uint64_t seed = argc > 3 ? std::strtoull(argv[3], nullptr, 10) : 1;
-    // single-threaded reference
-    std::vector<std::uint64_t> ref(static_cast<std::size_t>(nthreads) * static_cast<std::size_t>(iters));
-    for (int t = 0; t < nthreads; ++t)
-        for (int i = 0; i < iters; ++i) ref[static_cast<std::size_t>(t * iters + i)] = own_work(t * 31 + i, seed + static_cast<std::uint64_t>(t));
-    // shared Positions that NO thread (not even this one) has queried before the workers start: the reference digests
-    // come from separate copies built from the same FENs, so a lazily filled cache inside Position would be written
-    // for the first time by concurrent const queries
-    std::vector<Position> shared_pool;
-    std::vector<std::uint64_t> shared_ref;
-    for (int i = 0; i < iters; ++i) {
-        shared_pool.emplace_back(fens[i % 5]);
-        const Position reference(fens[i % 5]);
-        shared_ref.push_back(shared_work(reference));
-    }
-    std::atomic<int> mismatches{0};
+    // The workers run FIRST and only record what they saw; the single-threaded reference is computed afterwards (after
+    // the joins).  Nothing of the library has been touched by any thread before the workers start — no warm-up by the
+    // main thread, no happens-before edge from a reference run — so lazily initialised tables, lazily filled caches inside
+    // shared Positions and process-wide statistics are written for the first time by concurrent threads.
+    const std::size_t total = static_cast<std::size_t>(nthreads) * static_cast<std::size_t>(iters);
+    std::vector<std::uint64_t> got_own(total), got_shared(total);
+    std::vector<Position> shared_pool(static_cast<std::size_t>(iters));     // default-constructed: no library code has run
     std::vector<std::thread> th;
+    std::atomic<int> ready{0};
     for (int t = 0; t < nthreads; ++t) {
         th.emplace_back([&, t] {
+            // each worker loads its share of the shared objects (own objects at this point), then all start together
+            for (int i = t; i < iters; i += nthreads) shared_pool[static_cast<std::size_t>(i)].set_fen(shared_fens[i % NSF]);
+            ready++;
+            while (ready.load() < nthreads) {}
             for (int i = 0; i < iters; ++i) {
-                if (own_work(t * 31 + i, seed + static_cast<std::uint64_t>(t)) != ref[static_cast<std::size_t>(t * iters + i)]) mismatches++;
-                if (shared_work(shared_pool[static_cast<std::size_t>(i)]) != shared_ref[static_cast<std::size_t>(i)]) mismatches++;
+                got_own[static_cast<std::size_t>(t * iters + i)] = own_work(t * 31 + i, seed + static_cast<std::uint64_t>(t));
+                got_shared[static_cast<std::size_t>(t * iters + i)] = shared_work(shared_pool[static_cast<std::size_t>(i)]);
             }
         });
     }
     for (auto &x : th) x.join();
-    std::printf("threads=%d iterations=%d evaluations=%d mismatching_results=%d\n", nthreads, iters, 2 * nthreads * iters, mismatches.load());
-    return mismatches.load() ? 1 : 0;
+    int mismatches = 0;
+    for (int t = 0; t < nthreads; ++t)
+        for (int i = 0; i < iters; ++i) {
+            if (got_own[static_cast<std::size_t>(t * iters + i)] != own_work(t * 31 + i, seed + static_cast<std::uint64_t>(t))) mismatches++;
+            const Position reference(shared_fens[i % NSF]);
+            if (got_shared[static_cast<std::size_t>(t * iters + i)] != shared_work(reference)) mismatches++;
+        }
+    std::printf("threads=%d iterations=%d evaluations=%d mismatching_results=%d\n", nthreads, iters, 2 * nthreads * iters, mismatches);
+    return mismatches ? 1 : 0;
 }
